@@ -114,7 +114,7 @@ def prop_shift(case):
 
 @st.composite
 def degree_case(draw):
-    gc = draw(gen.graph_case(1, 12, labels=('int', 'str', 'tuple'), weighted=False))
+    gc = draw(gen.graph_case(1, 12, labels=('int', 'str', 'tuple'), weighted=False, selfloops=True))
     return {'gc': gc, 'x': draw(st.one_of(st.sampled_from([1.0, 0.5, 0.25]), st.floats(0.05, 1.0, allow_nan=False))),
             'T': draw(st.sampled_from([0.2, 0.5, 1.0])), 'tau': draw(gen.pos_rates), 'gamma': draw(gen.pos_rates), 'rewire': draw(st.integers(0, 40))}
 
@@ -124,7 +124,13 @@ def prop_degree(case):
     G = oracles.build_graph(case['gc'])
     nodes, adj = oracles.adjacency(case['gc'])
     N = len(nodes)
-    degs = [len(adj[u]) for u in nodes]
+    # edge ends: a self-loop gives its node two ends that both lead back to it (the convention of G.degree)
+    ends = {u: [] for u in nodes}
+    for e in case['gc']['edges']:
+        a, b = oracles.tolabel(e[0]), oracles.tolabel(e[1])
+        ends[a].append(b)
+        ends[b].append(a)
+    degs = [len(ends[u]) for u in nodes]
     fails = []
     try:
         Pk = EoN.get_Pk(G)
@@ -165,9 +171,9 @@ def prop_degree(case):
                 # direct: fraction of edge-ends of degree-k nodes that lead to degree k2
                 cnt = {}
                 for u in nodes:
-                    if len(adj[u]) == k:
-                        for v in adj[u]:
-                            cnt[len(adj[v])] = cnt.get(len(adj[v]), 0) + 1
+                    if len(ends[u]) == k:
+                        for v in ends[u]:
+                            cnt[len(ends[v])] = cnt.get(len(ends[v]), 0) + 1
                 tot = float(sum(cnt.values()))
                 if any(abs(row.get(k2_, 0) - c / tot) > 1e-10 for k2_, c in cnt.items()):
                     fails.append(Failure('get_Pnk:values', 'row k=%d = %r; neighbour-degree frequencies = %r' % (k, dict(row), {a: c / tot for a, c in cnt.items()})))
@@ -206,7 +212,8 @@ def prop_degree(case):
                                      % (EoN.estimate_R0(G, transmissibility=case['T']), case['T'] * k2b / k1b)))
     except Exception as e:
         fails.append(Failure('degree-helpers:exception:%s' % exc_signature(e), 'raised %r' % (e,)))
-    return Result(fails, nontrivial=len(set(degs)) >= 2, classes=['>=2-degrees'] if len(set(degs)) >= 2 else ['regular'])
+    return Result(fails, nontrivial=len(set(degs)) >= 2, classes=(['>=2-degrees'] if len(set(degs)) >= 2 else ['regular']) +
+                  (['self-loops'] if case['gc'].get('selfloops') else []))
 
 
 def replay(ctx, sub, case):
